@@ -73,6 +73,10 @@ func (x *exec) callCommon(st *State, fr *Frame, ins ssa.Instruction, c *ssa.Call
 	x.callSiteAsserts(st, fr, ins, ci, full)
 	// contract?
 	if fs := e.w.Contracts[ci.key]; fs != nil && !(fs.Inline && ci.fn != nil && ci.fn.Blocks != nil) {
+		if d := fs.Opts["dispatch"]; d != "" && c.IsInvoke() {
+			x.dispatch(st, fr, ins, c, ci, fs, d, full, kind, k)
+			return
+		}
 		x.applyContract(st, fr, ins, ci, fs, full, kind, k)
 		return
 	}
@@ -294,9 +298,65 @@ func (x *exec) resolveFuncVar(st *State, fr *Frame, v ssa.Value) (*ssa.Function,
 	return fn, binds
 }
 
+// dispatch devirtualises an interface call over the dynamic types listed in the contract ("opt dispatch = *T1, *T2");
+// that the list is complete is an obligation.
+func (x *exec) dispatch(st *State, fr *Frame, ins ssa.Instruction, c *ssa.CallCommon, ci calleeInfo, fs *spec.FuncSpec, list string, args []Value, kind string, k cont) {
+	e := x.e
+	recv := args[0].one()
+	env := x.newEnv(st, fs)
+	var conds []smt.Term
+	for _, tn := range strings.Split(list, ",") {
+		tn = strings.TrimSpace(tn)
+		stars := 0
+		for strings.HasPrefix(tn, "*") {
+			stars++
+			tn = tn[1:]
+		}
+		te := &spec.TypeExpr{Stars: stars, Name: tn}
+		if i := strings.LastIndex(tn, "."); i >= 0 {
+			te.Pkg, te.Name = tn[:i], tn[i+1:]
+		}
+		t := env.resolveType(te)
+		is := e.ctx.Name("disp", smt.Eq(e.dyn(recv), e.typeTag(t)))
+		conds = append(conds, is)
+		sel := e.w.Prog.SSA.MethodSets.MethodSet(t).Lookup(c.Method.Pkg(), c.Method.Name())
+		if sel == nil {
+			specErr("dispatch: %v has no method %s", t, c.Method.Name())
+		}
+		fn := e.w.Prog.SSA.MethodValue(sel)
+		if fn == nil {
+			specErr("dispatch: no function for %v.%s", t, c.Method.Name())
+		}
+		st2 := st.clone()
+		st2.assume(is)
+		cv := e.unbox(recv, t)
+		st2.assume(smt.Eq(recv, e.box(cv)))
+		e.assumeValid(st2, cv)
+		x.countPath()
+		nargs := append([]Value{cv}, args[1:]...)
+		nci := calleeInfo{key: FuncKey(fn), fn: fn, sig: fn.Signature}
+		if rets, ok := x.intrinsic(st2, fr, ins, nci, nargs); ok {
+			k(st2, rets)
+			continue
+		}
+		x.callSiteAsserts(st2, fr, ins, nci, nargs)
+		if cfs := e.w.Contracts[nci.key]; cfs != nil && !(cfs.Inline && fn.Blocks != nil) {
+			x.applyContract(st2, fr, ins, nci, cfs, nargs, kind, k)
+		} else if fn.Blocks != nil && fr.depth < maxInlineDepth && !fr.onStack(fn) {
+			x.inline(st2, fr, ins, nci, nargs, k)
+		} else {
+			specErr("dispatch target %s has neither contract nor inlinable body", nci.key)
+		}
+	}
+	st.assume(smt.Not(smt.Or(conds...)))
+	e.obligation(st, "dispatch", fmt.Sprintf("%s#%d", shortKey(ci.key), x.callOrdinal(ins, ci.key)), "C09.nopanic",
+		"the receiver's dynamic type is one of: "+list, fs.Pos.String(), smt.False)
+}
+
 // inline executes the callee's body in the current path.
 func (x *exec) inline(st *State, fr *Frame, ins ssa.Instruction, ci calleeInfo, args []Value, k cont) {
 	fn := ci.fn
+	x.recordEventVals(st, ins, ci.key, "inline", args, paramNames(ci, nil))
 	nf := &Frame{fn: fn, depth: fr.depth + 1, parent: fr, site: ins, loops: x.loopInfoOf(fn)}
 	nf.k = func(st *State, rets []Value) { k(st, rets) }
 	for i, p := range fn.Params {
